@@ -9,7 +9,7 @@ import os, re
 TRAITS = ["Bytes", "MutBytes", "ByteArray", "MutByteArray", "NewBytes", "NewByteArray", "ResizableBytes", "Clone", "Lock", "Unlock",
           "ProtectReadOnly", "ProtectReadWrite", "ProtectNoAccess", "Deref", "DerefMut", "AsRef", "AsMut", "Lockable", "NewLocked",
           "NewLockedFromSlice", "Default", "Zeroize", "Drop", "Index", "IndexMut", "From", "TryFrom", "Serialize", "Deserialize",
-          "Allocator", "PartialEq", "Eq", "Debug", "ZeroizeOnDrop", "ProtectMode", "LockMode"]
+          "Allocator", "PartialEq", "Eq", "Debug", "ZeroizeOnDrop", "ProtectMode", "LockMode", "AsRefArray", "AsMutArray"]
 ALIASES = {"Locked": ("ReadWrite", "Locked"), "LockedRO": ("ReadOnly", "Locked"), "NoAccess": ("NoAccess", "Unlocked"),
            "Unlocked": ("ReadWrite", "Unlocked"), "UnlockedRO": ("ReadOnly", "Unlocked"), "LockedBytes": ("ReadWrite", "Locked")}
 PM = {"ReadWrite": 0, "ReadOnly": 1, "NoAccess": 2}
@@ -67,13 +67,19 @@ def tname(t):
     t = t.split("<")[0].split("::")[-1]
     return t
 
+def trname(t):
+    """trait name; AsRef<[u8; N]> / AsMut<[u8; N]> are kept apart from the slice forms"""
+    n = tname(t)
+    if n in ("AsRef", "AsMut") and re.search(r"<\s*\[\s*u8\s*;", t): return n + "Array"
+    return n
+
 def bounds_of(gen):
     b = {}
     for g in split_top(gen):
         if g.startswith("const ") or g.startswith("'"): continue
         if ":" in g:
             n, bs = g.split(":", 1)
-            b[n.strip()] = [tname(x) for x in bs.split("+") if x.strip() and not x.strip().startswith("'")]
+            b[n.strip()] = [trname(x) for x in bs.split("+") if x.strip() and not x.strip().startswith("'")]
         else:
             b[g.strip()] = []
     return b
@@ -104,12 +110,12 @@ def generate(repo):
     rows, cont, blanket = [], {1: set(), 2: set()}, []
     for gen, tr, target in impl_headers(src):
         if tr is None: continue
-        t = tname(tr)
+        t = trname(tr)
         if t not in tcode: raise SystemExit("vgen(impl table): unknown trait %s in protected.rs (add it to bin/vimpltable.py)" % t)
         bnds = bounds_of(gen)
-        if target.strip() in bnds and tname(tr) in tcode:
+        if target.strip() in bnds and trname(tr) in tcode:
             # blanket impl over a bare generic parameter: applies to every container that meets the bounds
-            blanket.append((tname(tr), [x for x in bnds[target.strip()] if x in tcode]))
+            blanket.append((trname(tr), [x for x in bnds[target.strip()] if x in tcode]))
             continue
         pt = parse_target(target, bnds)
         if pt is None: continue
